@@ -269,11 +269,12 @@ class CoreDriver(Harness):
             h, g = self.real(a[0]), self.real(a[1])
             rv, clean = self.use(h, g, a[2])
             ev.update(h=h, g=g, f=a[2], clean=clean)
-        elif name == "MMake":
+        elif name in ("MMake", "MMakeFail"):
             h = self.real(a[0])
             self.next_o += 1
             o = self.next_o
-            rv, g = self.make(h, a[1], o, a[2], a[3], a[4])
+            rv, g = self.make(h, a[1], o, a[2], a[3], a[4], bad=(name == "MMakeFail"))
+            ev["e"] = "MMake"
             ev.update(h=h, how=a[1], o=o, tokobj=a[2], priv=a[3], lab=a[4], nh=g if rv == 0 else 0)
             if rv == 0:
                 self.issue(g, "o")
@@ -404,10 +405,13 @@ class CoreDriver(Harness):
             return rv, not (rv != 0 and ng)
         raise ValueError(f)
 
-    def make(self, h, how, o, tokobj, private, lab):
+    def make(self, h, how, o, tokobj, private, lab, bad=False):
         p = self.p
         ident = [(K.CKA_TOKEN, bool(tokobj)), (K.CKA_PRIVATE, bool(private)), (K.CKA_LABEL, self.labbytes(lab)),
                  (K.CKA_ID, self.tagbytes(o))]
+        if bad:
+            # an attribute the key class does not have: refused only when the object is built from the template
+            ident = ident + [(K.CKA_MODULUS_BITS, 1024)]
         if how == "generate":
             return p.generate_key(h, Mech(K.CKM_AES_KEY_GEN), ident + [(K.CKA_VALUE_LEN, 16), (K.CKA_ENCRYPT, True)])
         if how == "unwrap":
